@@ -40,7 +40,7 @@ func init() {
 			"plus missing/malformed bounds; distinct = shape hash (layout, placement, n, target, bound kind, offset class, forms, outcome); non-trivial = the SP took a decision",
 		Directed:   c05Directed,
 		Run:        c05Run,
-		MustHit:    []string{"delay_to_bound", "offset=0", "offset=+1ns", "offset=-1ns", "kind=sc-nooa", "kind=cond-nb", "kind=cond-nooa", "bad_bound", "skewed_clock", "non_utc_location", "redelivery_after_expiry"},
+		MustHit:    []string{"delay_to_bound", "offset=0", "offset=+1ns", "offset=-1ns", "kind=sc-nooa", "kind=cond-nb", "kind=cond-nooa", "bad_bound", "conditions_element_absent", "skewed_clock", "non_utc_location", "redelivery_after_expiry"},
 		RandomRuns: map[string]int{"quick": 8000, "thorough": 60000},
 		Assumptions: []string{
 			"RFC 3339 grey areas (leap seconds, lower-case t/z, hour 24) are not generated",
@@ -85,7 +85,7 @@ func c05Directed(tier string) [][]uint64 {
 				if kind != c05KindSC && tgt != 0 {
 					continue
 				}
-				for bad := uint64(1); bad <= uint64(len(c05BadBounds))+1; bad++ {
+				for bad := uint64(1); bad <= uint64(len(c05BadBounds))+2; bad++ {
 					out = append(out, []uint64{n - 1, tgt, kind, 0, 0, 0, (n + kind + bad) % 4, bad, bad % 3})
 				}
 			}
@@ -102,8 +102,8 @@ func c05Run(r *core.Run) {
 	offIdx := t.Int(7, "c05.off")
 	form := world.InstantForm{OffsetMin: []int{0, 60, -300, 330, 345, -720, 840, -1, 1}[t.Int(9, "c05.form.off")], Frac: t.Int(10, "c05.form.frac")}
 	place := t.Int(4, "c05.place")
-	bad := t.Int(100, "c05.bad") // 0 none; 1..len malformed; len+1 missing; the rest none
-	if bad > len(c05BadBounds)+1 {
+	bad := t.Int(100, "c05.bad") // 0 none; 1..len malformed; len+1 missing; len+2 the whole Conditions element missing; the rest none
+	if bad > len(c05BadBounds)+2 {
 		bad = 0
 	}
 	skewSel := t.Int(3, "c05.skewsel")
@@ -175,6 +175,11 @@ func c05Run(r *core.Run) {
 			badDesc = "malformed:" + c05BadBounds[bad-1]
 		} else {
 			badDesc = "missing"
+		}
+		if bad == len(c05BadBounds)+2 && kind != c05KindSC {
+			a.HasConditions = false
+			badDesc = "missing"
+			r.Probe("conditions_element_absent")
 		}
 		switch kind {
 		case c05KindSC:
